@@ -11,6 +11,10 @@ RULES = {
     'FOLD-PURE': 'fold operators and everything they reach have no effect but their return value: no store to self outside '
                  '__init__, no global/nonlocal, no clock/random read, no in-place mutation of an object reachable from a parameter '
                  'unless a fresh copy intervened (a callee that mutates a parameter is only ever given fresh objects)',
+    'BATCH-PURE': 'functions applied to each batch (map_partitions callbacks and helpers of streamz.dataframe / collection) do not '
+                  'mutate the batch they are given: sibling consumers of the same stream see the batch unmodified',
+    'INITIAL-NEUTRAL': 'Aggregation.initial() takes only the shape from the first batch: no arithmetic on its values (inf/NaN '
+                       'would poison the neutral element)',
     'STATE-PLUMB': 'start / with_state given at the public API reach Stream.accumulate: every function that takes them passes them '
                    'on, accumulate_partitions forwards start/returns_state, accumulate seeds self.state from start',
     'CTOR-COPY': 'a method that re-instantiates its helper class forwards every state-bearing field',
@@ -70,16 +74,17 @@ def _is_fresh_value(v):
 
 
 def param_mutations(fn):
-    """[(node, name, what)] in-place mutations of param-reachable names; flow in source order"""
+    """[(node, name, what)] in-place mutations of param-reachable names.
+    Block-structured flow: an unconditional re-binding to a fresh value ends the aliasing for the rest of its block;
+    after a nested block the outer aliasing is restored (the other path did not re-bind) and anything aliased inside stays."""
     params = [p for p in fn.params() if p != 'self'] + [a.arg for a in fn.node.args.kwonlyargs]
-    aliased = set(params)
     out = []
-    stmts = sorted([n for n in own_nodes(fn.node) if isinstance(n, ast.stmt)], key=lambda n: (n.lineno, n.col_offset))
-
     RETURNING = {'pop', 'popleft', 'popitem', 'setdefault'}
 
-    def check_expr_calls(node, is_stmt=False):
+    def check_expr_calls(node, aliased, is_stmt=False):
         for c in ast.walk(node):
+            if isinstance(c, (ast.FunctionDef, ast.AsyncFunctionDef, ast.Lambda)):
+                continue
             if isinstance(c, ast.Call) and isinstance(c.func, ast.Attribute) and c.func.attr in MUTATORS:
                 # container mutators that return None are only meant when their value is discarded
                 # (pandas' x.add(y, fill_value=0) is arithmetic and returns a new object)
@@ -95,53 +100,81 @@ def param_mutations(fn):
                         if r in aliased:
                             out.append((c, r, '%s(inplace=True)' % src(c.func)))
 
-    for s in stmts:
-        if isinstance(s, ast.Assign):
-            check_expr_calls(s.value)
-            for t in s.targets:
-                if isinstance(t, (ast.Subscript, ast.Attribute)):
+    def walk(block, aliased):
+        for s in block:
+            if isinstance(s, ast.Assign):
+                check_expr_calls(s.value, aliased)
+                for t in s.targets:
+                    if isinstance(t, (ast.Subscript, ast.Attribute)):
+                        r = _root_name(t)
+                        if r in aliased and r != 'self':
+                            out.append((s, r, 'store into %s' % src(t)))
+                for t in s.targets:
+                    names = [t] if isinstance(t, ast.Name) else (
+                        [e for e in t.elts if isinstance(e, ast.Name)] if isinstance(t, (ast.Tuple, ast.List)) else [])
+                    v = s.value
+                    derives = False
+                    if isinstance(v, ast.Name) and v.id in aliased:
+                        derives = True
+                    elif isinstance(v, ast.Subscript) and _root_name(v) in aliased and not isinstance(v.slice, ast.Slice):
+                        derives = True
+                    elif isinstance(v, ast.Attribute) and _root_name(v) in aliased:
+                        derives = True
+                    for nm in names:
+                        if derives:
+                            aliased.add(nm.id)
+                        elif _is_fresh_value(v):
+                            aliased.discard(nm.id)
+            elif isinstance(s, ast.AugAssign):
+                check_expr_calls(s.value, aliased)
+                r = _root_name(s.target)
+                if r in aliased and r != 'self':
+                    out.append((s, r, 'augmented assignment %s' % src(s)[:40]))
+            elif isinstance(s, ast.Delete):
+                for t in s.targets:
                     r = _root_name(t)
-                    if r in aliased and r != 'self':
-                        out.append((s, r, 'store into %s' % src(t)))
-            # alias maintenance
-            for t in s.targets:
-                names = [t] if isinstance(t, ast.Name) else ([e for e in t.elts if isinstance(e, ast.Name)] if isinstance(t, (ast.Tuple, ast.List)) else [])
-                v = s.value
-                derives = False
-                if isinstance(v, ast.Name) and v.id in aliased:
-                    derives = True
-                elif isinstance(v, ast.Subscript) and _root_name(v) in aliased and not isinstance(v.slice, ast.Slice):
-                    derives = True
-                elif isinstance(v, ast.Attribute) and _root_name(v) in aliased:
-                    derives = True
-                for nm in names:
-                    if derives:
-                        aliased.add(nm.id)
-                    elif _is_fresh_value(v):
-                        aliased.discard(nm.id)
-        elif isinstance(s, ast.AugAssign):
-            check_expr_calls(s.value)
-            r = _root_name(s.target)
-            if r in aliased and r != 'self':
-                out.append((s, r, 'augmented assignment %s' % src(s)[:40]))
-        elif isinstance(s, ast.Delete):
-            for t in s.targets:
-                r = _root_name(t)
-                if r in aliased and isinstance(t, (ast.Subscript, ast.Attribute)):
-                    out.append((s, r, 'del %s' % src(t)))
-        elif isinstance(s, (ast.Expr, ast.Return)):
-            if s.value is not None:
-                check_expr_calls(s.value, is_stmt=isinstance(s, ast.Expr))
-        elif isinstance(s, (ast.If, ast.While)):
-            check_expr_calls(s.test)
-        elif isinstance(s, ast.For):
-            check_expr_calls(s.iter)
-            for e in ast.walk(s.target):
-                if isinstance(e, ast.Name):
-                    if _root_name(s.iter) in aliased and not isinstance(s.iter, ast.Call):
-                        aliased.add(e.id)
-                    else:
-                        aliased.discard(e.id)
+                    if r in aliased and isinstance(t, (ast.Subscript, ast.Attribute)):
+                        out.append((s, r, 'del %s' % src(t)))
+            elif isinstance(s, (ast.Expr, ast.Return)):
+                if s.value is not None:
+                    check_expr_calls(s.value, aliased, is_stmt=isinstance(s, ast.Expr))
+            elif isinstance(s, (ast.If, ast.While)):
+                check_expr_calls(s.test, aliased)
+                before = set(aliased)
+                inner = set()
+                for arm in (s.body, s.orelse):
+                    a2 = set(before)
+                    walk(arm, a2)
+                    inner |= a2
+                aliased.clear()
+                aliased.update(before | inner)
+            elif isinstance(s, (ast.For, ast.AsyncFor)):
+                check_expr_calls(s.iter, aliased)
+                before = set(aliased)
+                a2 = set(before)
+                for e in ast.walk(s.target):
+                    if isinstance(e, ast.Name):
+                        if _root_name(s.iter) in aliased and not isinstance(s.iter, ast.Call):
+                            a2.add(e.id)
+                        else:
+                            a2.discard(e.id)
+                walk(s.body, a2)
+                walk(s.orelse, a2)
+                aliased.clear()
+                aliased.update(before | a2)
+            elif isinstance(s, ast.Try):
+                before = set(aliased)
+                inner = set()
+                for arm in [s.body, s.orelse, s.finalbody] + [h.body for h in s.handlers]:
+                    a2 = set(before)
+                    walk(arm, a2)
+                    inner |= a2
+                aliased.clear()
+                aliased.update(before | inner)
+            elif isinstance(s, (ast.With, ast.AsyncWith)):
+                walk(s.body, aliased)
+
+    walk(fn.node.body, set(params))
     return out, params
 
 
@@ -203,6 +236,40 @@ def check_fold_pure(ctx, R):
              '%s mutates its parameter (%s) and %s passes it an object that is not a fresh copy: the previous state is '
              'modified in place' % (fname, what, bad[0].qual if bad else '?'),
              ctx.where(bad[0], bad[1].lineno) if bad else ctx.where(callee, node.lineno))
+
+
+def check_batch_pure(ctx, R):
+    M = ctx.model
+    n = 0
+    for modname in (DFC, 'streamz.collection', 'streamz.dataframe.utils', 'streamz.batch'):
+        m = M.modules.get(modname)
+        if m is None:
+            continue
+        for fn in m.all_funcs:
+            if fn.owner is not None:
+                continue            # methods act on self; their batch functions are the nested/module-level callables
+            if fn.name in ('random_datapoint', 'random_datablock', '_cb'):
+                continue
+            muts, params = param_mutations(fn)
+            muts = [(node, name, what) for node, name, what in muts if name != 'self' and name != 'kwargs']
+            n += 1
+            R.ob('BATCH-PURE', ctx.construct(fn), 'parameters', not muts,
+                 '; '.join('mutates in place an object reachable from parameter `%s`: %s' % (nm, what) for _, nm, what in muts[:2]),
+                 ctx.where(fn, muts[0][0].lineno) if muts else ctx.where(fn, fn.node.lineno))
+    R.count('batch_functions', n)
+
+
+def check_initial_neutral(ctx, R):
+    M = ctx.model
+    for cls in agg_classes(M):
+        fn = cls.methods.get('initial')
+        if fn is None:
+            continue
+        bad = [n for n in own_nodes(fn.node) if isinstance(n, (ast.BinOp, ast.AugAssign))
+               and not (isinstance(n, ast.BinOp) and isinstance(n.op, (ast.BitOr, ast.BitAnd)))]
+        R.ob('INITIAL-NEUTRAL', ctx.construct(fn), 'arithmetic', not bad,
+             'initial() computes its neutral element by arithmetic on the first batch (%s): NaN / inf in that batch poison the '
+             'state for ever' % (src(bad[0])[:40] if bad else ''), ctx.where(fn, bad[0].lineno) if bad else ctx.where(fn, fn.node.lineno))
 
 
 # ----------------------------------------------------------------------------- STATE-PLUMB / CTOR-COPY / ACC-CONTRACT
@@ -490,10 +557,10 @@ def _step_forms(fn):
     for p in paths:
         ok = True
         for c, o in p.conds:
-            if 'len(' in c and not o:
-                ok = False
+            if c.replace(' ', '') == 'len(%s)' % batchp and not o:
+                ok = False          # the "batch is empty" arm is not the accumulate path
             if 'isinstance(' in c and o:
-                ok = False
+                ok = False          # scalar divide-by-zero guards
         if ok:
             main.append(p)
     if len(main) != 1:
